@@ -391,7 +391,21 @@ struct Explorer {
 				samples.push_back("{\"history\":" + historyJson(nn.hist) + ",\"state_key\":\"" + jesc(nn.key) + "\",\"step_trace\":\"" + jesc(E::traceText(x.trace, x.stepBegin, 40)) + "\"}");
 			frontier.push_back(std::move(nn));
 		}
+#if VT_MANUAL
+		else if (x.step.op.type == OP_EXIT && x.step.script.empty() && !x.activatedAfter && !inReenter) {
+			// an exited instance collapses onto an already known key (the key holds what the statements let a user observe);
+			// whatever else an exit leaves behind must not matter: re-activation is explored from EVERY exit history, not only
+			// from the representative of the key
+			inReenter = true;
+			Node nn{x.full(), x.keyAfter, node.depth + 1, false};
+			Op en; en.type = OP_ENTER;
+			++counters["reenter_from_every_exit_history"];
+			exploreStep(nn, en, frontier, opt.dev);
+			inReenter = false;
+		}
+#endif
 	}
+	bool inReenter = false;
 
 	void exploreStep(const Node& node, const Op& op, std::deque<Node>& frontier, int dev) {
 		Exec base;
